@@ -636,4 +636,95 @@ theorem canary_never_above_stable (br : BR) (steps : List Step) (w : World) (exp
     ∀ o ∈ run br w exp steps, ∀ d ∈ o.w.deps, d.owner = .this → ∀ r, d.replicas = some r → r ≤ R :=
   canary_replicas_bounded br steps w exp R R hnd hR hst (fun _ _ e _ => calcBatch_le R e hR) h0
 
+/-- **C06 — stale canaries are not reused**: the canary Deployment the plane works on (scales, reports in
+    the status) is owned by this BatchRelease, active, and — when the stable Deployment exists — has the
+    stable Deployment's *current* pod template; a canary of an older template is never picked up again
+    (it is released with the others in `Finalize` and collected with the BatchRelease). -/
+theorem selected_canary_is_current (br : BR) (w : World) (cd st : Dep)
+    (hst : w.find br.key = some st) (hsel : selectCanary br w = some cd) :
+    cd ∈ w.deps ∧ cd.owner = .this ∧ cd.deleting = false ∧ eqIgnore br st.template cd.template = true := by
+  obtain ⟨h1, h2, h3⟩ := selectCanary_mem hsel
+  refine ⟨h1, h2, h3, ?_⟩
+  rw [selectCanary_eq, hst] at hsel
+  simp only [Option.map_some] at hsel
+  unfold filterCanary at hsel
+  split at hsel
+  · cases hsel
+  · dsimp only at hsel
+    have := List.find?_some hsel
+    simpa using this
+
+/-! ## non-vacuity: concrete worlds on which the hypotheses hold and the calls do something
+    (these are *tests* by kernel evaluation, not the ∀ claims) -/
+
+namespace Demo
+
+def tpl (rev : Nat) : Template := { rev := rev, labels := [("app", "demo")], annos := [] }
+def strat : Strategy := { type := .rolling, rolling := some (some (.pct 25), some (.pct 25)) }
+
+def stable : Dep :=
+  { name := 0, owner := .none, ctrl := .this, canaryOf := none, template := tpl 2, replicas := some 10, paused := true,
+    finalizer := false, otherFinalizer := false, deleting := false, created := 1, generation := 3, observedGeneration := 3,
+    statusReplicas := 10, updatedReplicas := 10, availableReplicas := 10, strategy := strat }
+
+/-- a canary as the plane creates it (template patched with the label `canary=yes`), scaled to 2 -/
+def canary : Dep :=
+  { name := 1, owner := .this, ctrl := .this, canaryOf := some 0,
+    template := { rev := 2, labels := [("app", "demo"), ("canary", "yes")], annos := [] }, replicas := some 2,
+    paused := false, finalizer := true, otherFinalizer := false, deleting := false, created := 5, generation := 2,
+    observedGeneration := 2, statusReplicas := 2, updatedReplicas := 2, availableReplicas := 2, strategy := strat }
+
+/-- a canary of the previous template, newer by creation time, in deletion -/
+def stale : Dep := { canary with name := 2, template := tpl 1, created := 7, replicas := some 4, deleting := true }
+
+/-- somebody else's Deployment -/
+def foreign : Dep := { canary with name := 3, owner := .other, ctrl := .other, created := 3 }
+
+def w : World := { deps := [canary, stale, foreign, stable] }
+def wNoCanary : World := { deps := [foreign, stable] }
+
+def br : BR :=
+  { key := 0, batches := [.pct 20, .pct 50, .pct 100], currentBatch := 1, partition := none, rolloutID := false,
+    failureThreshold := none, waitResume := false, patch := some ([("canary", "yes")], []) }
+
+def noFault : Cfg := { failAt := none, reads := false, timedOut := false }
+def failAt (k : Nat) (reads : Bool) : Cfg := { failAt := some k, reads := reads, timedOut := false }
+
+example : namesNodup w = true ∧ namesNodup wNoCanary = true := by decide
+example : matchCount br w = 1 ∧ matchCount br wNoCanary = 0 := by decide
+example : selectCanary br w = some canary := by decide
+
+/-- `Finalize` without faults: ok, stable released and un-paused, both owned Deployments lose the finalizer
+    (the one in deletion disappears), the foreign one keeps it -/
+example : (call br .fin noFault w .none).res = .ok ∧
+    (call br .fin noFault w .none).w.deps =
+      [{ canary with finalizer := false }, foreign, { stable with ctrl := .none, paused := false, generation := 4 }] := by
+  decide
+
+/-- the second finalizer removal fails (write 2 = third write): an error is reported, and it has to be —
+    `stale` still carries the finalizer -/
+example : (call br .fin (failAt 2 false) w .none).res = .err ∧
+    (call br .fin (failAt 2 false) w .none).w.find 2 = some stale ∧
+    (call br .fin (failAt 2 false) w .none).w.find 1 = some { canary with finalizer := false } := by
+  decide
+
+/-- `UpgradeBatch` for batch 1 (50 % of 10): the selected canary goes from 2 to exactly 5; batch 0 (20 %) leaves it -/
+example : (call br .upgrade noFault w .none).res = .ok ∧
+    ((call br .upgrade noFault w .none).w.find 1).map (·.replicas) = some (some 5) ∧
+    (call { br with currentBatch := 0 } .upgrade noFault w .none).w = w := by
+  decide
+
+/-- `Initialize` retried three times, the second attempt failing at its first write: exactly one canary appears -/
+example :
+    ((run br wNoCanary .none
+        [{ ev := .none, op := .init, cfg := failAt 0 false, currentBatch := 0 },
+         { ev := .none, op := .init, cfg := noFault, currentBatch := 0 },
+         { ev := .clearExp, op := .init, cfg := noFault, currentBatch := 0 },
+         { ev := .none, op := .init, cfg := noFault, currentBatch := 0 }]).map
+      (fun o => (o.res, o.w.deps.length, matchCount br o.w))) =
+    [(.err, 2, 0), (.err, 3, 1), (.ok, 3, 1), (.ok, 3, 1)] := by
+  decide
+
+end Demo
+
 end RV.Props.CtlCanary
